@@ -243,11 +243,34 @@ Section Texts.
       destruct l' as [|y2 l'']; reflexivity.
   Qed.
 
+  (* a leaf, a list of tokens, or a QName *)
+  Definition vshapeq (t : ptype) (fmt : option str) (y : value) : Prop :=
+    vshape t fmt y \/ (t = TQName /\ exists q, y = VP (PQName q) /\ ok (PQName q) = true /\ qname_ok q = true).
+  (* the character data / attribute value `s`, reported under the prefix map `ns`, reads as `y` *)
+  Definition vtext (ns : nsmap) (fmt : option str) (y : value) (s : str) : Prop :=
+    match y with
+    | VP (PQName q) => resolve_qname ns s = Some (Bind.split_qname q)
+    | _ => s = y_text fmt y
+    end.
+
+  Lemma vtext_plain t fmt y ns s : vshape t fmt y -> (vtext ns fmt y s <-> s = y_text fmt y).
+  Proof.
+    intros [p Hp|tf l Hl]; [|reflexivity]. destruct p; try reflexivity.
+    rewrite (leaf_nq c u ok t fmt s0) in Hp. discriminate Hp.
+  Qed.
+
   Lemma e_atoms_vshape_plain t fmt y : vshape t fmt y -> atoms_plain (e_atoms fmt y) = true.
   Proof.
     intros [p Hp|tf l Hl].
     - rewrite (e_atoms_plain_leaf c u ok t fmt p Hp). reflexivity.
     - cbn [RoundtripGen.e_atoms]. unfold atoms_plain. apply forallb_forall. intros a Ha. apply in_map_iff in Ha as [z [<- _]]. reflexivity.
+  Qed.
+  Lemma atoms_read_vtext t fmt y ns s : vshapeq t fmt y -> atoms_read ns (e_atoms fmt y) s -> vtext ns fmt y s.
+  Proof.
+    intros [Hs|[_ [q [-> _]]]] H; [|exact H].
+    apply (atoms_read_plain ns _ s (e_atoms_vshape_plain t fmt y Hs)) in H.
+    destruct (e_data_spec t fmt y Hs) as [_ Hat]. rewrite Hat in H. inversion H.
+    apply (vtext_plain t fmt y ns _ Hs). reflexivity.
   Qed.
 End Texts.
 
@@ -288,6 +311,8 @@ Section Main.
   Notation e_atoms := (e_atoms c u).
   Notation y_text := (y_text c u).
   Notation vshape := (vshape c u ok).
+  Notation vshapeq := (vshapeq c u ok).
+  Notation vtext := (vtext c u).
   Notation wfr := (wfr u).
   Notation prun := (Parser.run cfg c u replay root).
   Notation pstep := (Parser.step cfg c u replay root).
@@ -318,6 +343,17 @@ Section Main.
     | _ => v_tokens_factory var = None
     end.
 
+  Lemma parse_var_vtext m var t y ns s :
+    v_types var = [t] -> vshapeq t (v_format var) y -> tokens_agree var y -> vtext ns (v_format var) y s ->
+    parse_var c (fail_conv_warnings cfg) m var (Some s) ns None None = ROk (y, []).
+  Proof.
+    intros Ht [Hs|[Et [q [-> [Hok Hq]]]]] Htk Hv.
+    - apply (vtext_plain c u ok t _ y ns s Hs) in Hv. subst s. apply (parse_var_text m var t y ns Ht Hs Htk).
+    - subst t. cbn [RoundtripParse.vtext] in Hv. unfold parse_var. cbn [truthy_str]. rewrite Ht.
+      cbn [tokens_agree] in Htk. rewrite Htk. cbn [parse_value]. unfold deser.
+      rewrite (proj2 conv_law (v_format var) ns q s Hok Hv). reflexivity.
+  Qed.
+
   Lemma default_call_value d : default_call d = default_value d.
   Proof. destruct d; reflexivity. Qed.
 
@@ -337,10 +373,22 @@ Section Main.
   Lemma attr_cases var x : wf_attr var = true -> fits_attr var x = true ->
     (e_attr var x = [] /\ default_call (v_default var) = x)
     \/ (exists t, e_attr var x = [(Bind.split_qname (v_qname var), e_atoms (v_format var) x)]
-                  /\ v_types var = [t] /\ vshape t (v_format var) x /\ tokens_agree var x).
+                  /\ v_types var = [t] /\ vshapeq t (v_format var) x /\ tokens_agree var x).
   Proof.
-    intros Hw Hf. destruct (wf_attr_inv var Hw) as [Hk [Hc [Hcl [Hfa [Hr [t [Ht [Hs Hd]]]]]]]].
+    intros Hw Hf. destruct (wf_attr_inv var Hw) as [Hk [Hc [Hcl [Hfa [Hr [t [Ht Hty0]]]]]]].
     unfold Fits.fits_attr, vtype in Hf. rewrite Ht in Hf. unfold RoundtripGen.e_attr.
+    destruct Hty0 as [[Hs Hd]|[Et [Htf0 Hd0]]].
+    2:{ subst t. rewrite Htf0 in Hf. cbn [ptype_eqb] in Hf.
+        destruct x as [|p| | | | |]; try discriminate.
+        - left. split; [reflexivity|]. rewrite Hd0. reflexivity.
+        - unfold qleaf_ok in Hf. apply andb_true_iff in Hf as [Hokq Hq]. destruct p as [| | | | | |q1| |]; try discriminate Hq.
+          cbn [is_array andb].
+          destruct (ign && opt_skip var (VP (PQName q1))) eqn:Eo.
+          + exfalso. apply andb_true_iff in Eo as [_ Eo]. unfold opt_skip in Eo.
+            destruct (v_required var); [discriminate|]. rewrite Hd0 in Eo. cbn [default_value py_eq] in Eo. discriminate Eo.
+          + right. exists TQName. split; [reflexivity|]. split; [exact Ht|]. split; [|exact Htf0].
+            right. split; [reflexivity|]. exists q1. repeat split; assumption. }
+    rewrite (simple_not_qname t Hs) in Hf.
     destruct (v_tokens_factory var) as [tf|] eqn:Etf.
     - destruct x as [| |tp l| | | |]; try discriminate. apply andb_true_iff in Hf as [Hflag Htok].
       assert (Etp : tp = is_tuple tf) by (destruct tp, (is_tuple tf); try reflexivity; discriminate).
@@ -353,7 +401,7 @@ Section Main.
           destruct (v_required var); [discriminate|].
           destruct tf, (v_default var); try discriminate Hd; cbn [default_value py_eq] in Eo;
             destruct (Bool.eqb _ tp); discriminate.
-        * right. exists t. split; [reflexivity|]. split; [exact Ht|]. split; [apply vs_tokens; exact Htok|].
+        * right. exists t. split; [reflexivity|]. split; [exact Ht|]. split; [left; apply vs_tokens; exact Htok|].
           exists tf. split; [exact Etf|exact Etp].
     - destruct x as [|p| | | | |]; try discriminate.
       + left. split; [reflexivity|]. destruct (v_default var); try discriminate. reflexivity.
@@ -365,7 +413,7 @@ Section Main.
           destruct (v_required var); [discriminate|]. rewrite default_call_value.
           apply (py_eq_true_simple t _ p Hd Hty).
           destruct (py_eq (default_value (v_default var)) (VP p)) as [[|]|]; try discriminate. reflexivity.
-        * right. exists t. split; [reflexivity|]. split; [exact Ht|]. split; [apply vs_leaf; exact Hf|]. exact Etf.
+        * right. exists t. split; [reflexivity|]. split; [exact Ht|]. split; [left; apply vs_leaf; exact Hf|]. exact Etf.
   Qed.
 
   (* ---------------------------------------------------------------- the statement proved by induction *)
@@ -424,10 +472,10 @@ Section Main.
       end.
 
     (* an attribute the document carries: its field, and the text it carries *)
-    Definition carried (q : qname) (s : str) : Prop :=
+    Definition carried (ns : nsmap) (q : qname) (s : str) : Prop :=
       exists var t, In (q, var) (m_attributes m) /\ v_qname var = q /\ wf_attr var = true
-                    /\ v_types var = [t] /\ vshape t (v_format var) (F var) /\ tokens_agree var (F var)
-                    /\ s = y_text (v_format var) (F var).
+                    /\ v_types var = [t] /\ vshapeq t (v_format var) (F var) /\ tokens_agree var (F var)
+                    /\ vtext ns (v_format var) (F var) s.
 
     Lemma assoc_attr q var : In (q, var) (m_attributes m) -> assoc q (m_attributes m) = Some var.
     Proof.
@@ -436,13 +484,13 @@ Section Main.
     Qed.
 
     Lemma bind_attrs_loop_ok en : en_meta en = m -> forall attrs p,
-      (forall q s, In (q, s) attrs -> carried q s) ->
+      (forall q s, In (q, s) attrs -> carried (en_ns en) q s) ->
       NoDup (map fst p ++ map (fun qs => fst (entry (fst qs))) attrs) ->
       bind_attrs_loop cfg c en attrs p [] = ROk (p ++ map (fun qs => entry (fst qs)) attrs, []).
     Proof.
       intros Hen. induction attrs as [|[q s] attrs IH]; intros p Hc Hn.
       - cbn [bind_attrs_loop map]. rewrite app_nil_r. reflexivity.
-      - destruct (Hc q s (or_introl eq_refl)) as [var [t [Hin [Hq [Hw [Ht [Hs [Htk ->]]]]]]]].
+      - destruct (Hc q s (or_introl eq_refl)) as [var [t [Hin [Hq [Hw [Ht [Hs [Htk Hvt]]]]]]]].
         pose proof (assoc_attr q var Hin) as Ha.
         cbn [bind_attrs_loop]. rewrite Hen. unfold find_attribute. rewrite Ha.
         assert (He : entry q = (v_name var, PV (F var))) by (unfold entry; rewrite Ha; reflexivity).
@@ -451,7 +499,7 @@ Section Main.
           intros Hin'. apply Hn. apply in_or_app. left; exact Hin'. }
         rewrite (pmem_false _ _ Hfresh).
         unfold bind_attr. rewrite Hen.
-        rewrite (parse_var_text m var t (F var) (en_ns en) Ht Hs Htk). cbn [rbind].
+        rewrite (parse_var_vtext m var t (F var) (en_ns en) s Ht Hs Htk Hvt). cbn [rbind].
         destruct (wf_attr_inv var Hw) as [_ [Hcm _]]. destruct (var_common_inv var Hcm) as [Hinit _].
         rewrite Hinit. cbn [rbind fst snd app].
         rewrite (pset_fresh _ _ _ Hfresh).
@@ -491,64 +539,83 @@ Section Main.
     Lemma avar_all var : In var avars -> In var (get_all_vars m).
     Proof. intros H. apply (in_allvars m var Hwc). left; exact H. Qed.
 
-    Definition emitted (var : xvar) : list (qname * str) :=
-      match e_attr var (F var) with [] => [] | _ => [(v_qname var, y_text (v_format var) (F var))] end.
+    (* the names of the attributes the serializer emitted *)
+    Definition emitted (var : xvar) : list qname :=
+      match e_attr var (F var) with [] => [] | _ => [v_qname var] end.
 
-    Lemma reads_attrs_carried attrs : reads_attrs eats attrs ->
-      (forall q s, In (q, s) attrs -> carried q s)
-      /\ (forall var, In var avars -> e_attr var (F var) <> [] -> In (v_qname var, y_text (v_format var) (F var)) attrs)
+    Lemma nodup_keys_unique {A} (l : list (qname * A)) k a b :
+      NoDup (map fst l) -> In (k, a) l -> In (k, b) l -> a = b.
+    Proof.
+      induction l as [|[k0 x] r IH]; intros Hn Ha Hb; [destruct Ha|]. cbn [map fst] in Hn. inversion Hn as [|? ? Hk Hr]; subst.
+      destruct Ha as [Ea|Ha], Hb as [Eb|Hb].
+      - congruence.
+      - inversion Ea; subst. exfalso. apply Hk. apply in_map_iff. exists (k, b). split; [reflexivity|exact Hb].
+      - inversion Eb; subst. exfalso. apply Hk. apply in_map_iff. exists (k, a). split; [reflexivity|exact Ha].
+      - apply (IH Hr Ha Hb).
+    Qed.
+
+    Lemma reads_attrs_carried ns attrs : reads_attrs ns eats attrs ->
+      (forall q s, In (q, s) attrs -> carried ns q s)
+      /\ (forall var, In var avars -> e_attr var (F var) <> [] -> exists s, In (v_qname var, s) attrs)
       /\ NoDup (map fst attrs).
     Proof.
       intros [Hnd [Hlen Hall]].
-      set (L := flat_map emitted avars).
+      set (K := flat_map emitted avars).
       assert (Hcase : forall var, In var avars ->
                 (e_attr var (F var) = [] /\ default_call (v_default var) = F var)
                 \/ (exists t, e_attr var (F var) = [(Bind.split_qname (v_qname var), e_atoms (v_format var) (F var))]
-                              /\ v_types var = [t] /\ vshape t (v_format var) (F var) /\ tokens_agree var (F var))).
+                              /\ v_types var = [t] /\ vshapeq t (v_format var) (F var) /\ tokens_agree var (F var))).
       { intros var Hin. destruct (wf_class_avar m var Hwc Hin) as [Hw Hina].
         apply (attr_cases var (F var) Hw). apply (Hfa _ Hina). }
+      (* every emitted attribute is in the event, with a text that reads as the value *)
       assert (HinL : forall var, In var avars -> e_attr var (F var) <> [] ->
-                In (v_qname var, y_text (v_format var) (F var)) attrs).
+                exists t s, v_types var = [t] /\ vshapeq t (v_format var) (F var) /\ tokens_agree var (F var)
+                            /\ vtext ns (v_format var) (F var) s /\ In (v_qname var, s) attrs).
       { intros var Hin Hne. destruct (Hcase var Hin) as [[E _]|[t [E [Ht [Hs Htk]]]]]; [congruence|].
         destruct (Hall (Bind.split_qname (v_qname var), e_atoms (v_format var) (F var))) as [v [Hv Hinv]].
         { unfold eats. apply in_flat_map. exists var. split; [exact Hin|]. rewrite E. left; reflexivity. }
         cbn [fst snd] in *. rewrite clark_split in Hinv.
-        destruct (e_data_spec c u ok t _ _ Hs) as [_ Hat]. rewrite Hat in Hv. inversion Hv; subst v. exact Hinv. }
-      assert (HL1 : incl L attrs).
-      { intros [q s] Hqs. unfold L in Hqs. apply in_flat_map in Hqs as [var [Hin Hqs]].
-        unfold emitted in Hqs. destruct (e_attr var (F var)) eqn:E; [destruct Hqs|].
-        destruct Hqs as [Hqs|[]]. inversion Hqs; subst. apply HinL; [exact Hin|congruence]. }
-      assert (HL2 : NoDup L).
-      { apply (NoDup_map_inv fst). unfold L.
-        apply (nodup_flat_opt v_qname fst); [exact avars_qnames_nodup|].
+        exists t, v. repeat split; try assumption. apply (atoms_read_vtext c u ok t _ _ ns v Hs Hv). }
+      assert (HK1 : incl K (map fst attrs)).
+      { intros q Hq. unfold K in Hq. apply in_flat_map in Hq as [var [Hin Hq]].
+        unfold emitted in Hq. destruct (e_attr var (F var)) eqn:E; [destruct Hq|].
+        destruct Hq as [<-|[]]. destruct (HinL var Hin) as [t [s0 [_ [_ [_ [_ Hi]]]]]]; [congruence|].
+        apply in_map_iff. exists (v_qname var, s0). split; [reflexivity|exact Hi]. }
+      assert (HK2 : NoDup K).
+      { unfold K. rewrite <- (map_id (flat_map emitted avars)).
+        apply (nodup_flat_opt v_qname (fun q : qname => q)); [exact avars_qnames_nodup|].
         intros var _. unfold emitted. destruct (e_attr var (F var)); [left; reflexivity|].
         right. eexists; split; reflexivity. }
-      assert (HL3' : forall l, incl l avars ->
+      assert (HK3' : forall l, incl l avars ->
                 length (flat_map emitted l) = length (flat_map (fun var => e_attr var (F var)) l)).
       { induction l as [|var r IH]; intros Hi; [reflexivity|].
         cbn [flat_map]. rewrite !app_length, IH.
         - f_equal. unfold emitted. destruct (Hcase var (Hi var (or_introl eq_refl))) as [[E _]|[t [E _]]]; rewrite E; reflexivity.
         - intros v Hvin. apply Hi. right; exact Hvin. }
-      assert (HL3 : length L = length eats) by (apply HL3'; apply incl_refl).
-      assert (HL4 : incl attrs L).
-      { apply NoDup_length_incl; [exact HL2| |exact HL1]. apply Nat.eq_le_incl.
-        transitivity (length eats); [exact Hlen|symmetry; exact HL3]. }
-      split; [|split; [exact HinL|exact Hnd]].
-      intros q s Hqs. apply HL4 in Hqs. unfold L in Hqs. apply in_flat_map in Hqs as [var [Hin Hqs]].
-      unfold emitted in Hqs. destruct (Hcase var Hin) as [[E _]|[t [E [Ht [Hs Htk]]]]]; rewrite E in Hqs; [destruct Hqs|].
-      destruct Hqs as [Hqs|[]]. inversion Hqs; subst.
-      destruct (wf_class_avar m var Hwc Hin) as [Hw Hina].
-      exists var, t. repeat split; assumption.
+      assert (HK3 : length K = length eats) by (apply HK3'; apply incl_refl).
+      assert (HK4 : incl (map fst attrs) K).
+      { apply NoDup_length_incl; [exact HK2| |exact HK1]. rewrite map_length. apply Nat.eq_le_incl.
+        transitivity (length eats); [exact Hlen|symmetry; exact HK3]. }
+      split; [|split; [|exact Hnd]].
+      - intros q s Hqs.
+        assert (Hq : In q K) by (apply HK4; apply in_map_iff; exists (q, s); split; [reflexivity|exact Hqs]).
+        unfold K in Hq. apply in_flat_map in Hq as [var [Hin Hq]].
+        unfold emitted in Hq. destruct (e_attr var (F var)) eqn:E; [destruct Hq|]. destruct Hq as [<-|[]].
+        destruct (HinL var Hin) as [t [s0 [Ht [Hs [Htk [Hvt Hi]]]]]]; [congruence|].
+        pose proof (nodup_keys_unique attrs (v_qname var) s s0 Hnd Hqs Hi) as Es. subst s0.
+        destruct (wf_class_avar m var Hwc Hin) as [Hw Hina].
+        exists var, t. repeat split; assumption.
+      - intros var Hin Hne. destruct (HinL var Hin Hne) as [t [s0 [_ [_ [_ [_ Hi]]]]]]. exists s0. exact Hi.
     Qed.
 
     Lemma bind_attrs_ok en attrs :
-      en_meta en = m -> en_attrs en = attrs -> reads_attrs eats attrs ->
+      en_meta en = m -> en_attrs en = attrs -> reads_attrs (en_ns en) eats attrs ->
       exists pa, bind_attrs cfg c en = ROk (pa, [])
         /\ NoDup (map fst pa)
         /\ (forall k pv, In (k, pv) pa -> exists var, In var avars /\ k = v_name var /\ pv = PV (F var))
         /\ (forall var, In var avars -> ~ In (v_name var) (map fst pa) -> default_call (v_default var) = F var).
     Proof.
-      intros Hen Hat Hr. destruct (reads_attrs_carried attrs Hr) as [Hc [Hem Hnd]].
+      intros Hen Hat Hr. destruct (reads_attrs_carried (en_ns en) attrs Hr) as [Hc [Hem Hnd]].
       assert (Hent : forall q s, In (q, s) attrs ->
                 exists var, In var avars /\ v_qname var = q /\ entry q = (v_name var, PV (F var))).
       { intros q s Hqs. destruct (Hc q s Hqs) as [var [t [Hin [Hq _]]]].
@@ -573,8 +640,9 @@ Section Main.
         destruct (wf_class_avar m var Hwc Hv) as [Hw Hina].
         destruct (attr_cases var (F var) Hw (Hfa _ Hina)) as [[_ Hd]|[t [E _]]]; [exact Hd|].
         exfalso. apply Hnot. rewrite map_map.
-        assert (Hqs : In (v_qname var, y_text (v_format var) (F var)) attrs) by (apply Hem; [exact Hv|congruence]).
-        apply in_map_iff. exists (v_qname var, y_text (v_format var) (F var)). split; [|exact Hqs].
+        assert (Hqs0 : exists s0, In (v_qname var, s0) attrs) by (apply Hem; [exact Hv|congruence]).
+        destruct Hqs0 as [s0 Hqs].
+        apply in_map_iff. exists (v_qname var, s0). split; [|exact Hqs].
         destruct (Hent _ _ Hqs) as [var' [Hv' [Hq' He']]]. cbn [fst]. rewrite He'. cbn [fst].
         f_equal. symmetry. apply (nodup_map_inj v_qname avars); [exact avars_qnames_nodup|exact Hv|exact Hv'|congruence].
     Qed.
@@ -1625,7 +1693,7 @@ Section Main.
     Proof. destruct (str_eqb_spec a b); [left|right]; assumption. Qed.
 
     Lemma end_complex asg q text tail Q objs W :
-      m_text m = None -> pos0 = length objs -> reads_attrs eats attrs0 -> blank_o tail = true ->
+      m_text m = None -> pos0 = length objs -> reads_attrs ns0 eats attrs0 -> blank_o tail = true ->
       pstep (mk_pstate (NElement (enW asg (flat_map wentryp ps)) :: Q) (objs ++ flat_map taggedp ps) W) (PEnd q text tail)
       = ROk (mk_pstate Q (objs ++ [(Some q, VObj cl fs)]) W).
     Proof.
@@ -1700,13 +1768,15 @@ Section Main.
 
     Lemma text_field_shape tv : wf_text tv = true -> fits_text tv (F tv) = true ->
       F tv = VNone /\ v_default tv = DNone
-      \/ exists t, v_types tv = [t] /\ vshape t (v_format tv) (F tv) /\ tokens_agree tv (F tv)
-                   /\ (y_text (v_format tv) (F tv) = [] -> default_call (v_default tv) = F tv).
+      \/ (exists t, v_types tv = [t] /\ vshape t (v_format tv) (F tv) /\ tokens_agree tv (F tv)
+                   /\ (y_text (v_format tv) (F tv) = [] -> default_call (v_default tv) = F tv))
+      \/ (exists q1, v_types tv = [TQName] /\ v_tokens_factory tv = None /\ F tv = VP (PQName q1)
+                     /\ ok (PQName q1) = true /\ qname_ok q1 = true).
     Proof.
       intros Hw Hf. destruct (wf_text_inv tv Hw) as [_ [_ [t [Ht [_ Hd]]]]].
       unfold Fits.fits_text, vtype in Hf. rewrite Ht in Hf.
       destruct (v_tokens_factory tv) as [tf|] eqn:Etf.
-      - right. exists t. destruct (F tv) as [| |tp l| | | |]; try discriminate Hf.
+      - right. left. exists t. destruct (F tv) as [| |tp l| | | |]; try discriminate Hf.
         apply andb_true_iff in Hf as [Hfl Htk]. apply eqb_bool in Hfl.
         split; [exact Ht|]. split; [apply vs_tokens; exact Htk|]. split; [exists tf; split; [exact Etf|exact Hfl]|].
         intros Hy. cbn [y_text] in Hy. destruct l as [|y1 l'].
@@ -1716,9 +1786,14 @@ Section Main.
           cbn [map] in Hy. apply (join_nonempty _ (map (x_text c u (v_format tv)) l') Hne'). exact Hy.
       - destruct (F tv) as [|p| | | | |]; try discriminate Hf.
         + left. split; [reflexivity|exact Hd].
-        + right. exists t. apply andb_true_iff in Hf as [Hp Hne].
-          split; [exact Ht|]. split; [apply vs_leaf; exact Hp|]. split; [exact Etf|].
-          intros Hy. cbn [y_text] in Hy. rewrite Hy in Hne. discriminate Hne.
+        + destruct (ptype_eqb t TQName) eqn:Etq.
+          * right. right. unfold qleaf_ok in Hf. apply andb_true_iff in Hf as [Hokq Hq].
+            destruct p as [| | | | | |q1| |]; try discriminate Hq.
+            assert (Et : t = TQName) by (destruct t; try discriminate Etq; reflexivity). subst t.
+            exists q1. repeat split; assumption.
+          * right. left. exists t. apply andb_true_iff in Hf as [Hp Hne].
+            split; [exact Ht|]. split; [apply vs_leaf; exact Hp|]. split; [exact Etf|].
+            intros Hy. cbn [y_text] in Hy. rewrite Hy in Hne. discriminate Hne.
     Qed.
 
     Lemma text_of_eq tv t : vshape t (v_format tv) (F tv) ->
@@ -1727,11 +1802,12 @@ Section Main.
 
     Lemma end_simple tv asg wr q tail Q objs W :
       m_text m = Some tv -> fits_text tv (F tv) = true ->
-      pos0 = length objs -> reads_attrs eats attrs0 -> blank_o tail = true ->
+      pos0 = length objs -> reads_attrs ns0 eats attrs0 -> blank_o tail = true ->
+      (forall q1, F tv <> VP (PQName q1)) ->
       pstep (mk_pstate (NElement (enW asg wr) :: Q) objs W) (PEnd q (text_of tv) tail)
       = ROk (mk_pstate Q (objs ++ [(Some q, VObj cl fs)]) W).
     Proof.
-      intros Htx Hft Hpos Hra Htl.
+      intros Htx Hft Hpos Hra Htl Hnq.
       destruct (wf_class_inv m Hwc) as [F1 F2 F3 F4 F5 F6 F7 F8 F9 F10 F11 F12 F13].
       rewrite Htx in F11. destruct F11 as [Hwt Hnoe].
       assert (Hevars : evars = [tv]).
@@ -1760,7 +1836,8 @@ Section Main.
                 (do obj <- class_factory cfg m (evaluate p1);
                  ROk (obj, objs, @nil warning ++ @nil warning ++ @nil warning, false))
                 = ROk (VObj cl fs, objs, @nil warning, false)) by (intros p1 ->; reflexivity).
-      destruct (text_field_shape tv Hwt Hft) as [[Ex Hd]|[t [Ht [Hs [Htk Hdef]]]]].
+      destruct (text_field_shape tv Hwt Hft) as [[Ex Hd]|[[t [Ht [Hs [Htk Hdef]]]]|[q1 [_ [_ [Eq _]]]]]];
+        [| |exfalso; apply (Hnq q1 Eq)].
       - (* no text *)
         unfold text_of. rewrite Ex. cbn [is_some negb andb rbind app].
         rewrite (class_factory_ok pa Hnd).
@@ -1808,6 +1885,67 @@ Section Main.
           * exact Hinits.
     Qed.
 
+    (* simple content whose value is a QName: the text resolves through the prefix map of the start event *)
+    Lemma end_simple_q tv asg wr q q1 s tail Q objs W :
+      m_text m = Some tv -> fits_text tv (F tv) = true ->
+      pos0 = length objs -> reads_attrs ns0 eats attrs0 -> blank_o tail = true ->
+      F tv = VP (PQName q1) -> s <> [] -> resolve_qname ns0 s = Some (Bind.split_qname q1) ->
+      pstep (mk_pstate (NElement (enW asg wr) :: Q) objs W) (PEnd q (Some s) tail)
+      = ROk (mk_pstate Q (objs ++ [(Some q, VObj cl fs)]) W).
+    Proof.
+      intros Htx Hft Hpos Hra Htl Eq Hne Hres.
+      destruct (wf_class_inv m Hwc) as [F1 F2 F3 F4 F5 F6 F7 F8 F9 F10 F11 F12 F13].
+      rewrite Htx in F11. destruct F11 as [Hwt Hnoe].
+      assert (Hevars : evars = [tv]).
+      { unfold evars. rewrite (evars_eq m Hwc), Hnoe, Htx. reflexivity. }
+      assert (Htv : In tv evars) by (rewrite Hevars; left; reflexivity).
+      destruct (wf_text_inv tv Hwt) as [_ [Hcm _]]. destruct (var_common_inv tv Hcm) as [Hinit _].
+      destruct (bind_attrs_ok (enW asg wr) attrs0 eq_refl eq_refl Hra) as [pa [Hba [Hnd [Hin Habs]]]].
+      assert (Hfresh : ~ In (v_name tv) (map fst pa)).
+      { intros Hi. apply in_map_iff in Hi as [[k pv] [Ek Hk]]. cbn [fst] in Ek. subst k.
+        destruct (Hin _ _ Hk) as [va [Hva [En _]]]. apply (avar_evar_disjoint va tv Hva Htv). symmetry. exact En. }
+      assert (Hinits : forall var, In var (get_all_vars m) -> v_init var = true).
+      { intros var Hv. destruct (allvars_split var Hv) as [Ha|He].
+        - destruct (wf_class_avar m var Hwc Ha) as [Hw _]. destruct (wf_attr_inv var Hw) as [_ [Hc _]].
+          destruct (var_common_inv var Hc) as [Hi _]. exact Hi.
+        - rewrite Hevars in He. destruct He as [<-|[]]. exact Hinit. }
+      destruct (text_field_shape tv Hwt Hft) as [[Ex _]|[[t [_ [Hs _]]]|[q2 [Ht [Htf [Eq2 [Hokq Hq]]]]]]].
+      { rewrite Ex in Eq. discriminate Eq. }
+      { rewrite Eq in Hs. inversion Hs as [p Hp E|]. rewrite (leaf_nq c u ok t _ q1) in Hp. discriminate Hp. }
+      rewrite Eq in Eq2. inversion Eq2; subst q2. clear Eq2.
+      cbn [Parser.step pend st_queue st_objects st_warn]. unfold element_bind.
+      change (xsi_nil_true (enW asg wr)) with false. cbn [negb orb].
+      rewrite Hba. cbn [rbind fst snd].
+      unfold bind_content. change (en_meta (enW asg wr)) with m. unfold find_any_wildcard. rewrite F2. cbn [hd_error].
+      change (en_position (enW asg wr)) with pos0. change (en_wrappers (enW asg wr)) with wr.
+      rewrite Hpos, skipn_all, firstn_all. cbn [bind_objects_loop rbind fst snd].
+      unfold bind_text. change (en_meta (enW asg wr)) with m. rewrite Htx.
+      change (xsi_nil_true (enW asg wr)) with false. cbn [negb andb].
+      destruct s as [|ch s0]; [congruence|].
+      cbn [is_some negb andb truthy_str].
+      change (en_ns (enW asg wr)) with ns0.
+      set (pv := parse_var _ _ _ _ _ _ _ _).
+      assert (Hpv : pv = ROk (F tv, [])).
+      { unfold pv. rewrite Eq. apply (parse_var_vtext m tv TQName (VP (PQName q1)) ns0 (ch :: s0) Ht); [|exact Htf|exact Hres].
+        right. split; [reflexivity|]. exists q1. repeat split; assumption. }
+      rewrite Hpv. clear pv Hpv. cbn [rbind]. rewrite Hinit. cbn [rbind app].
+      rewrite (pset_fresh _ _ _ Hfresh).
+      rewrite (class_factory_ok (pa ++ [(v_name tv, PV (F tv))])).
+      * cbn [rbind]. change (en_derived (enW asg wr)) with false. cbn iota.
+        unfold append_tail. rewrite (normalize_blank tail Htl).
+        unfold finish_end. cbn [rbind fst snd st_warn]. rewrite app_nil_r. reflexivity.
+      * rewrite map_app. apply NoDup_app_intro; [exact Hnd|constructor; [intros []|constructor]|].
+        intros k Hk1 [<-|[]]. exact (Hfresh Hk1).
+      * intros k pv Hk. apply in_app_or in Hk as [Hk|[Hk|[]]].
+        -- destruct (Hin _ _ Hk) as [va [Hva [En Hpv]]]. exists va. split; [apply avar_all; exact Hva|].
+           split; [exact En|]. rewrite Hpv. reflexivity.
+        -- inversion Hk. exists tv. split; [apply evar_all; exact Htv|]. split; reflexivity.
+      * intros var Hv Hnot. rewrite map_app in Hnot. destruct (allvars_split var Hv) as [Ha|He].
+        -- apply (Habs var Ha). intros Hi. apply Hnot. apply in_or_app. left; exact Hi.
+        -- rewrite Hevars in He. destruct He as [<-|[]]. exfalso. apply Hnot. apply in_or_app. right. left. reflexivity.
+      * exact Hinits.
+    Qed.
+
   End Obj.
 
   Lemma reads_text_content ns rec tv x t text kes :
@@ -1849,7 +1987,7 @@ Section Main.
     { unfold elem_name. rewrite Hm. reflexivity. }
     rewrite <- Hq in Hp.
     exists attrs, ns, (kes ++ [PEnd (elem_name qn cl) text tail]).
-    destruct (reads_attrs_carried fs m Hwc Hfa attrs Hra) as [Hcar _].
+    destruct (reads_attrs_carried fs m Hwc Hfa ns attrs Hra) as [Hcar _].
     assert (Hres : forall k, reserved_name k = true -> assoc k attrs = None).
     { intros k Hkr. apply assoc_none. intros Hi. apply in_map_iff in Hi as [[k' s'] [Ek Hks]]. cbn [fst] in Ek. subst k'.
       destruct (Hcar k s' Hks) as [var [t [_ [Hqv [Hw _]]]]].
@@ -1870,14 +2008,28 @@ Section Main.
       assert (Hkf : flat_map (fun vv => e_field (eobj n) (fst vv) (snd vv)) (pairs cl fs m) = e_field (eobj n) tv (field_of fs tv)).
       { rewrite Hpairs. unfold emit1. destruct (field_of fs tv); cbn [flat_map fst snd]; rewrite ?app_nil_r; reflexivity. }
       rewrite Hkf in Hk.
-      assert (Htext : text = text_of fs tv /\ kes = []).
-      { destruct (wf_text_inv tv Hwt) as [Hkt _].
-        destruct (text_field_shape fs tv Hwt Hft) as [[Ex _]|[t [Ht [Hs _]]]].
-        - unfold text_of. rewrite Ex in *. unfold RoundtripGen.e_field in Hk. exact Hk.
-        - rewrite (text_of_eq fs tv t Hs). apply (reads_text_content ns (eobj n) tv _ t text kes Hkt (wf_text_nowrap tv Hwt) Hs Hk). }
-      destruct Htext as [-> ->]. cbn [app].
-      apply run_step.
-      apply (end_simple cl fs m Hwc Hmc Hnames Hfa attrs ns (length objs) tv [] [] (elem_name qn cl) tail Q objs W Htx Hft eq_refl Hra Htl).
+      destruct (wf_text_inv tv Hwt) as [Hkt _].
+      destruct (text_field_shape fs tv Hwt Hft) as [[Ex _]|[[t [Ht [Hs _]]]|[q1 [Ht [Htf [Eq [Hokq Hqok]]]]]]].
+      + (* no value *)
+        assert (Htext : text = text_of fs tv /\ kes = []).
+        { unfold text_of. rewrite Ex in *. unfold RoundtripGen.e_field in Hk. exact Hk. }
+        destruct Htext as [-> ->]. cbn [app]. apply run_step.
+        apply (end_simple cl fs m Hwc Hmc Hnames Hfa attrs ns (length objs) tv [] [] (elem_name qn cl) tail Q objs W Htx Hft eq_refl Hra Htl).
+        intros q1 E. rewrite Ex in E. discriminate E.
+      + (* a leaf or a token list *)
+        assert (Htext : text = text_of fs tv /\ kes = []).
+        { rewrite (text_of_eq fs tv t Hs). apply (reads_text_content ns (eobj n) tv _ t text kes Hkt (wf_text_nowrap tv Hwt) Hs Hk). }
+        destruct Htext as [-> ->]. cbn [app]. apply run_step.
+        apply (end_simple cl fs m Hwc Hmc Hnames Hfa attrs ns (length objs) tv [] [] (elem_name qn cl) tail Q objs W Htx Hft eq_refl Hra Htl).
+        intros q1 E. rewrite E in Hs. inversion Hs as [p0 Hp0 E'|]. rewrite (leaf_nq c u ok t _ q1) in Hp0. discriminate Hp0.
+      + (* a QName *)
+        assert (He : e_field (eobj n) tv (field_of fs tv) = [EData [AQName (Bind.split_qname q1)]]).
+        { rewrite Eq. unfold RoundtripGen.e_field, RoundtripGen.e_items, RoundtripGen.e_wrap.
+          rewrite Hkt, (wf_text_nowrap tv Hwt). unfold RoundtripGen.e_data. cbn [RoundtripGen.e_atoms].
+          rewrite (qname_nontrivial q1 Hqok). reflexivity. }
+        rewrite He in Hk. destruct Hk as [s [Hs [Hne [-> ->]]]]. cbn [atoms_read] in Hs. cbn [app]. apply run_step.
+        apply (end_simple_q cl fs m Hwc Hmc Hnames Hfa attrs ns (length objs) tv [] [] (elem_name qn cl) q1 s tail Q objs W
+                 Htx Hft eq_refl Hra Htl Eq Hne Hs).
     - (* complex content *)
       assert (Hpf : forall vv, In vv (pairs cl fs m) -> In (fst vv) (get_element_vars m) /\ pair_ok m n vv).
       { intros vv Hvv. apply (pair_facts cl fs m Hwc Hmc Hnames n Hfe vv Htx Hvv). }
